@@ -427,6 +427,9 @@ class Campaign:
     def run(self):
         shutil.rmtree(self.outdir, ignore_errors=True)
         os.makedirs(self.outdir, exist_ok=True)
+        only = os.environ.get("VERIF_ONLY_HARNESS")     # experiments only (seeded changes); not used by the registered commands
+        if only:
+            self.spec = dict(self.spec, harnesses=[h for h in self.spec["harnesses"] if h["name"] == only])
         names = [h["name"] for h in self.spec["harnesses"]]
         libs = self.spec.get("libs", [])
         want_fuzz = self.tier == "thorough" and any(h.get("fuzz_runs", 0) for h in self.spec["harnesses"])
